@@ -57,4 +57,55 @@ MCSetCands ==
           [] pk[2] = "items" -> {ListV(<<D2(<<"u">>, StrV(<<"a", "l", "i", "c", "e">>), <<"p", "w">>, StrV(<<"i", "t", "e", "m", "p", "a", "s", "s", "#", "5">>))>>),
                                  ListV(<<D1(<<"u">>, StrV(<<"a", "l", "i", "c", "e">>)), D2(<<"u">>, StrV(<<"c", "a", "r", "o", "l">>), <<"p", "w">>, StrV(<<"i", "t", "e", "m", "p", "a", "s", "s", "#", "6">>))>>)}]
 MCMasks == {NoMask, MaskS(<<>>), MaskS(<<"*">>), MaskS(<<"X", "X">>)}
+
+(* ---- key-file placement family (C03: "the key file of the nearest ancestor that names one", for
+        every placement): root { pw; sub { tok }; v1: type[k1] { sec; inner { tok; v2: type[k2] { s2 } } };
+        items: list of type[ki] { u; pw }; api (sensitive) }, each of k1 / k2 / ki either absent ("")
+        or a key file of its own; the root's key file is the default one or kroot (RootKey). ---- *)
+KItem(ki) == [ctype |-> TRUE, keyfile |-> ki] @@ SchemaF(<< <<"u", StringF>>, <<"pw", With(SecureF, [method |-> "xor"])>> >>)
+KLeaf(k2) == [ctype |-> TRUE, keyfile |-> k2] @@ SchemaF(<< <<"s2", With(SecureF, [method |-> "aes"])>> >>)
+KInner(k2) == SchemaF(<< <<"tok", With(SecureF, [method |-> "aes"])>>, <<"v2", KLeaf(k2)>> >>)
+KV1(k1, k2) == [ctype |-> TRUE, keyfile |-> k1] @@ SchemaF(<< <<"sec", SecureF>>, <<"inner", KInner(k2)>> >>)
+SchemaK(k1, k2, ki) == SchemaF(<<
+    <<"pw", With(SecureF, [method |-> "xor"])>>,
+    <<"sub", SchemaF(<< <<"tok", With(SecureF, [method |-> "aes"])>> >>)>>,
+    <<"v1", KV1(k1, k2)>>,
+    <<"items", ListF(KItem(ki))>>,
+    <<"api", With(StringF, [sensitive |-> TRUE])>> >>)
+SchemaK000 == SchemaK("", "", "")
+SchemaK001 == SchemaK("", "", "ki")
+SchemaK010 == SchemaK("", "kw", "")
+SchemaK011 == SchemaK("", "kw", "ki")
+SchemaK100 == SchemaK("kv", "", "")
+SchemaK101 == SchemaK("kv", "", "ki")
+SchemaK110 == SchemaK("kv", "kw", "")
+SchemaK111 == SchemaK("kv", "kw", "ki")
+MCKeyNamesK == {"pw", "sub", "tok", "v1", "sec", "inner", "v2", "s2", "items", "u", "api"}
+MCKeyCharsK == [k \in MCKeyNamesK |-> CASE k = "pw" -> <<"p", "w">> [] k = "sub" -> <<"s", "u", "b">> [] k = "tok" -> <<"t", "o", "k">>
+                    [] k = "v1" -> <<"v", "1">> [] k = "sec" -> <<"s", "e", "c">> [] k = "inner" -> <<"i", "n", "n", "e", "r">>
+                    [] k = "v2" -> <<"v", "2">> [] k = "s2" -> <<"s", "2">> [] k = "items" -> <<"i", "t", "e", "m", "s">>
+                    [] k = "u" -> <<"u">> [] k = "api" -> <<"a", "p", "i">>]
+Sx(t) == StrV(t)
+\* ready-made instances (they name their own key file when the placement gives them one)
+KV1Obj == LET f == FieldOf(S, "v1")
+              d == DefaultCfg(f, <<"v1">>).cfg
+              a == SetPath(f, d, <<>>, "sec", Sx(<<"o", "b", "j", "s", "e", "c", "#", "1">>)).cfg
+              b == SetPath(f, a, <<"inner">>, "tok", Sx(<<"o", "b", "j", "t", "o", "k", "#", "2">>)).cfg
+          IN  SetPath(f, b, <<"inner", "v2">>, "s2", Sx(<<"o", "b", "j", "s", "2", "#", "3", "!">>)).cfg
+KItemObj == LET f == FieldOf(S, "items").item
+                d == DefaultCfg(f, <<"items">>).cfg
+            IN  SetPath(f, d, <<>>, "pw", Sx(<<"o", "b", "j", "i", "t", "e", "m", "#", "4">>)).cfg
+MCSetCandsK ==
+    [pk \in {<< <<>>, "pw">>, << <<"sub">>, "tok">>, << <<>>, "v1">>, << <<"v1">>, "sec">>, << <<"v1", "inner">>, "tok">>,
+             << <<"v1", "inner">>, "v2">>, << <<"v1", "inner", "v2">>, "s2">>, << <<>>, "items">>, << <<>>, "api">>} |->
+        CASE pk = << <<>>, "pw">> -> {Sx(<<"r", "o", "o", "t", "p", "w", "#", "5">>), Sx(<<>>)}
+          [] pk = << <<"sub">>, "tok">> -> {Sx(<<"s", "u", "b", "t", "o", "k", "#", "6">>)}
+          [] pk = << <<>>, "v1">> -> {D1(<<"s", "e", "c">>, Sx(<<"v", "1", "s", "e", "c", "#", "7", "!">>)), [t |-> "cfgobj", c |-> KV1Obj]}
+          [] pk = << <<"v1">>, "sec">> -> {Sx(<<"v", "1", "s", "e", "c", "#", "8", "!">>)}
+          [] pk = << <<"v1", "inner">>, "tok">> -> {Sx(<<"i", "n", "t", "o", "k", "#", "9", "!">>)}
+          [] pk = << <<"v1", "inner">>, "v2">> -> {D1(<<"s", "2">>, Sx(<<"v", "2", "s", "2", "#", "1", "0", "!">>))}
+          [] pk = << <<"v1", "inner", "v2">>, "s2">> -> {Sx(<<"v", "2", "s", "2", "#", "1", "1", "!">>)}
+          [] pk = << <<>>, "items">> -> {ListV(<<D2(<<"u">>, Sx(<<"a">>), <<"p", "w">>, Sx(<<"i", "t", "e", "m", "p", "w", "#", "1", "2">>))>>),
+                                        ListV(<<[t |-> "cfgobj", c |-> KItemObj], D1(<<"u">>, Sx(<<"b">>))>>)}
+          [] pk = << <<>>, "api">> -> {Sx(<<"A", "P", "I", "-", "K", "E", "Y", "-", "1", "3">>)}]
 ====
